@@ -8,6 +8,7 @@ use serde_json::{Value, json};
 
 mod crash;
 mod idxcrash;
+mod overload;
 mod race;
 mod sched;
 mod space;
@@ -500,6 +501,7 @@ async fn trace_cmd(rep: &mut Report, plans: &str, out: &str) {
     }
     f.flush().unwrap();
     sierradb::verif::clear();
+    overload::overload(rep, &root, APPEND_DEADLINE_MS).await;
     let _ = std::fs::remove_dir_all(&root);
     rep.set("runs", json!(runs));
     rep.set("trace_lines", json!(total_lines));
@@ -647,6 +649,7 @@ async fn timing_cmd(rep: &mut Report, out: &str) {
     }
     f.flush().unwrap();
     sierradb::verif::clear();
+    overload::overload(rep, &root, APPEND_DEADLINE_MS).await;
     let _ = std::fs::remove_dir_all(&root);
     rep.set("runs", json!(runs));
     rep.set("trace_lines", json!(total_lines));
